@@ -215,10 +215,12 @@ impl Types {
             }
             MemberKind::Int(n) => {
                 let value = permissive::deserialize::<I256, _>(value)?;
-                ensure!(
-                    value.unsigned_abs().leading_zeros() + n >= 256,
-                    "value {value:#x} overflows int{n}",
-                );
+                let sign_bits = if value.is_negative() {
+                    (!value).leading_zeros()
+                } else {
+                    value.leading_zeros()
+                };
+                ensure!(sign_bits + n > 256, "value {value:#x} overflows int{n}");
                 value.to_be_bytes()
             }
             MemberKind::Bool => match bool::deserialize(value)? {
